@@ -1,4 +1,5 @@
 mod access;
+mod arrowfmt;
 mod cmp;
 mod gen;
 mod model;
@@ -8,6 +9,7 @@ mod rt;
 mod selftest;
 mod spec;
 mod tarfmt;
+mod watch;
 
 use rt::{Ctx, Tier};
 
@@ -70,6 +72,7 @@ fn main() {
 				}
 			}
 		}
+		"isolated-read" => watch::isolated_read_main(&args[2..]),
 		"replay" => {
 			if args.len() < 4 {
 				usage();
